@@ -503,7 +503,7 @@ func main() {
 	emit(nil, nil, "empty")
 
 	// ---- seeded random chains
-	n := f.Count(350, 8000)
+	n := f.Count(350, 6000)
 	for i := 0; i < n; i++ {
 		r := gen.Fork(f.Seed, i)
 		base := genBase(r)
